@@ -36,10 +36,19 @@ type RTap struct {
 	MinGot   int
 	MaxGot   int
 	Seeks    []int64
-	ZeroEOF  bool
+	// EOFWithData: the Read that delivers the last bytes returns them together with io.EOF (allowed by io.Reader; network bodies of
+	// known length and iotest.DataErrReader behave so). ZeroEvery k>0: every k-th Read returns (0, nil) ("nothing happened").
+	EOFWithData bool
+	ZeroEvery   int
+	// SeekFailIdx ≥ 0: the Seek call with this index (0-based, over the life of the tap) fails with ErrInjected and leaves the
+	// position where it was.
+	SeekFailIdx int
+	NSeeks      int
 }
 
-func NewRTap(data []byte) *RTap { return &RTap{Data: data, FailAt: -1, MinGot: 1 << 30} }
+func NewRTap(data []byte) *RTap {
+	return &RTap{Data: data, FailAt: -1, SeekFailIdx: -1, MinGot: 1 << 30}
+}
 
 func (t *RTap) Read(p []byte) (int, error) {
 	t.NReads++
@@ -71,6 +80,9 @@ func (t *RTap) read(p []byte) (int, error) {
 	if t.Pos >= len(t.Data) {
 		return 0, io.EOF
 	}
+	if t.ZeroEvery > 0 && t.NReads%t.ZeroEvery == 0 {
+		return 0, nil
+	}
 	n := len(p)
 	if t.Chunk != nil {
 		if c := t.Chunk(t.Pos); c > 0 && c < n {
@@ -85,6 +97,9 @@ func (t *RTap) read(p []byte) (int, error) {
 	}
 	copy(p, t.Data[t.Pos:t.Pos+n])
 	t.Pos += n
+	if t.EOFWithData && t.Pos >= len(t.Data) {
+		return n, io.EOF
+	}
 	return n, nil
 }
 
@@ -92,6 +107,10 @@ func (t *RTap) read(p []byte) (int, error) {
 type Seekable struct{ *RTap }
 
 func (s Seekable) Seek(off int64, whence int) (int64, error) {
+	s.NSeeks++
+	if s.SeekFailIdx >= 0 && s.NSeeks-1 == s.SeekFailIdx {
+		return 0, ErrInjected
+	}
 	var np int64
 	switch whence {
 	case io.SeekStart:
